@@ -22,6 +22,8 @@ def run(ctx):
     import_rules(ctx, l6, "C07", only={"R1", "R3"})
     l7 = ctx.rule("L7", "with spec hashing on, the record made by an accepted submission is the one the next invocation computes for the unchanged target, and it survives the invocation (spec clause of C01)", min_instances=3)
     import_rules(ctx, l7, "C01", only={"R7"})
+    from .persist import rule_table_ownership
+    rule_table_ownership(ctx, l4, ("tracked jobs",))
     l8 = ctx.rule("L8", "'the backend executes every submitted job successfully, each job creating its declared outputs': the job runs in the target's working directory (where the "
                   "next status looks for the relative paths), and each submit command is started once (a second copy of a job rewrites outputs after its dependents ran)", min_instances=4)
     import_rules(ctx, l8, "C10", only={"R1"}, select=lambda c: "::cd" in c)
